@@ -31,10 +31,21 @@ def run(rep, tier):
     from props import ctrl_obl
     from engine import E2
     e = E2(rep, tier)
-    sizes = [(6, 3), (9, 3), (5, 4)] if tier == "quick" else [(6, 3), (9, 3), (5, 4), (16, 4), (24, 3), (8, 5)]
+    sizes = [(9, 3), (5, 4), (16, 3), (6, 5)] if tier == "quick" else [(9, 3), (5, 4), (16, 3), (6, 5), (16, 4), (32, 3), (8, 5)]
     rep.bounds["(segments,arguments)_mir"] = [list(x) for x in sizes]
-    ctrl_obl.c12_obligations(e, sizes, real=True)
     ctrl_obl.c12_obligations(e, [(2, 2), (3, 2)], real=False)
+    e.finish()
+    import parallel
+    parallel.run_parts(rep, tier, ["ev:%d:%d" % (n, q) for (n, q) in sorted(sizes, key=lambda t: -(t[0] ** t[1]))],
+                       mir_text=e.mir_text, sources=e.sources)
+
+
+def run_part(rep, tier, part):
+    from props import ctrl_obl
+    from engine import E2
+    _, n, q = part.split(":")
+    e = E2(rep, tier)
+    ctrl_obl.c12_obligations(e, [(int(n), int(q))], real=True)
     e.finish()
 
 
